@@ -74,6 +74,7 @@ PLANS["C20"] = dict(
     quick=[run("dev"), run("rel"), run("miri", procs=8, density=2, max_cases=12, timeout_s=900)],
     thorough=[run("rel", timeout_s=3000), run("dev", density=64, timeout_s=3000), run("miri", procs=16, density=128, timeout_s=3000)],
     exhaustive=dict(quick=False, thorough=True),
+    exhaustive_engines=dict(thorough=["rel"]),
     exhaustive_domain=dict(
         quick="not exhaustive: x < 2^20, the 65536-value blocks around every ELF range boundary / 2^31 / 2^32, 256 seed-chosen blocks (2^24 values); all 256 framebuffer type bytes x 3 colour-info shapes",
         thorough="release build: all 2^32 values for every law (tag type, memory-area type, ELF classification in both layouts at boundaries); dev build and Miri: 1/64 resp. sampled",
@@ -253,6 +254,7 @@ PLANS["C06"] = dict(
     quick=[run("dev", budget_s=60), run("rel", budget_s=60), run("asan", procs=8, density=2, budget_s=50), run("miri", procs=16, density=400, budget_s=70, timeout_s=900)],
     thorough=[run("dev", budget_s=900, timeout_s=3400), run("rel", timeout_s=3400), run("asan", density=8, budget_s=600, timeout_s=3000), run("miri", procs=16, density=64, budget_s=900, timeout_s=3000)],
     exhaustive=dict(quick=False, thorough=True),
+    exhaustive_engines=dict(thorough=["rel"]),
     exhaustive_domain=dict(
         quick="all subsets of the 22 builder slots of size <= 2 and >= 20 (in random call order), 50000 random subsets, 20000 random call sequences of length 0..=40 with repeats and random contents",
         thorough="release build: all 2^22 subsets of the 22 builder slots (fixed small contents, random call order) + 400000 random call sequences; dev/ASan/Miri: budgeted slices",
